@@ -277,6 +277,32 @@ pub fn run(run: &Run) {
             }
         }
     });
+    // long runs of mapped characters (around 255..65536) with ONE mapping that changes the UTF-8 length at the start / in the middle / at
+    // the end, followed by a few more capitals (batched rewriting with a running length correction)
+    run.par("long_mapped_runs_with_length_change", true, |tid, n, l| {
+        let mut idx = 0usize;
+        for len in [254usize, 255, 256, 257, 511, 512, 513, 1022, 1023, 1024, 1025, 2047, 2048, 2049, 4095, 4096, 4097, 16383, 16384, 65535, 65536, 65537] {
+            for changer in ['\u{212a}', '\u{1e9e}', '\u{130}', '\u{23a}', '\u{2126}', '\u{10400}'] {
+                for unit in ['A', 'X', '\u{391}', '\u{414}'] {
+                    idx += 1;
+                    if idx % n != tid || (len > 5000 && unit != 'A') {
+                        continue;
+                    }
+                    let run_s: String = std::iter::repeat(unit).take(len).collect();
+                    let half: String = std::iter::repeat(unit).take(len / 2).collect();
+                    for s in [format!("{changer}{run_s}BCD"), format!("{half}{changer}{half}YZ"), format!("{run_s}{changer}BCD"), format!("{changer}{run_s}{changer}{run_s}Q")] {
+                        l.cases += 1;
+                        for p in profs {
+                            if check(p, &s, l).is_err() {
+                                report(run, p, &s);
+                                return;
+                            }
+                        }
+                    }
+                }
+            }
+        }
+    });
     // all ordered pairs of characters that have a lowercase mapping (output-size estimates, growing/shrinking mappings)
     run.par("all_pairs_of_cased_characters", true, |tid, n, l| {
         let ca = &pools().cased_all;
